@@ -357,7 +357,7 @@ Proof.
     pose proof (len_nonneg b) as Hnn.
   - (* scalars *)
     destruct c; try discriminate Hs; cbn [decode].
-    + destruct (len b =? 0) eqn:G; finish.
+    + destruct (proto_decodeVarint b) as [[v n] e] eqn:E; apply dv_bounds in E; [|assumption]; finish.
     + destruct (proto_decodeVarint b) as [[v n] e] eqn:E; apply dv_bounds in E; [|assumption]; finish.
     + destruct (proto_decodeVarint b) as [[v n] e] eqn:E; apply dv_bounds in E; [|assumption].
       match goal with |- context [if ?x then _ else _] => destruct x end; finish.
